@@ -55,6 +55,8 @@ def _enc_fns(fnname):
 
 
 PROPS = {}
+_WR2 = ("cp /repo/Cargo.lock /verif/witness/Cargo.lock && CARGO_TARGET_DIR=/verif/build/witness cargo run --offline -q --release "
+        "--manifest-path /verif/witness/Cargo.toml --bin %s 2>&1 | grep -E '^(WITNESS|EXHAUSTIVE|error)' | tail -12")
 
 # ----------------------------------------------------------------------- C03
 PROPS["C03"] = dict(
@@ -113,6 +115,16 @@ PROPS["C26"] = dict(
           "the last fragment, or receives exactly the first PDU of the logical stream (a P-DATA PDU), appends the data of its values in "
           "order, records the last flag, and leaves exactly the rest of the stream for the next receive; the receive loop terminates",
           expected_verified=7),
+        N("C26.reader_messages",
+          "cp /repo/Cargo.lock /verif/witness/Cargo.lock && CARGO_TARGET_DIR=/verif/build/witness cargo run --offline -q --release "
+          "--manifest-path /verif/witness/Cargo.toml --bin c26_reader_messages 2>&1 | grep -E '^(WITNESS|EXHAUSTIVE|error)' | tail -12",
+          "message level, on the compiled PDataReader (survives restructurings of `read` that the extracted-text proof cannot follow): "
+          "writer-shaped messages (1-3 P-DATA PDUs, one value each, only the final one marked last, final value possibly empty) followed by "
+          "nothing / a second message / A-RELEASE-RQ: reading until Ok(0) returns exactly the payload and read_buffer ++ transport holds "
+          "exactly the bytes that follow",
+          bound="2340 cases: 52 message shapes x 3 continuations x 5 transport segment sizes x 3 caller buffer sizes (native enumeration of "
+                "the compiled code; not a deductive result)",
+          fns=[("ul/src/association/pdata.rs", "read", r"impl<R>\s+Read\s+for\s+PDataReader")]),
     ],
     assumptions=[
         "reader: read_pdu represented by the contract first_pdu with the assumed prefix-stability axiom (as C27); BufReader treated as transparent; "
@@ -176,6 +188,24 @@ PROPS["C18"] = dict(
           "otherwise it is the concatenation, in order, of exactly the fragments whose item offset (sum of 8 + length of the earlier "
           "fragments) lies in [table[frame], table[frame+1]) (to the end for the last frame), for any number of fragments and frames",
           expected_verified=6),
+        V("C18.from_fragments", "c18_from_fragments.vrs",
+          "From<Vec<Fragments>> for PixelFragmentSequence, ANY number of frames: no frames => empty table and no fragments; otherwise one "
+          "offset-table entry per frame, entry i = sum over the earlier frames of the bytes their items occupy (8 + fragment length each; "
+          "first entry 0), and the fragment list is the concatenation of the frames' fragments in order (Fragments::len as contract)",
+          expected_verified=12),
+        V("C18.fragments_new_any", "c18_fragments_new.vrs",
+          "Fragments::new(data, fragment_size) for ANY data length and fragment size: with fs = the effective size (fragment_size, or "
+          "max(|data|, 1) when 0, rounded up to even) there are ceil(|data| / fs) fragments of exactly fs bytes each (even), byte j of "
+          "fragment i is data[i*fs + j] or 0 beyond the data (less than one fragment of zero padding); no division by zero, no overflow",
+          expected_verified=5),
+        N("C18.encapsulation", _WR2 % "c18_encapsulation",
+          "on the compiled code, incl. the real iterator chains (chunks_exact, fold) that the Verus units represent by contracts: "
+          "Fragments::new + From<Vec<Fragments>> for 1-6 frames of 0-9 bytes (single frames also with fragment sizes 1-5): fragments even, "
+          "= frame data + zero padding of less than a fragment, offset table entry per frame = 8 bytes + length of every earlier fragment, "
+          "first entry 0; default frame_pixel_data on those objects and on multi-fragment frames with an explicit offset table (1-4 frames x "
+          "1-4 fragments): frame i's data is exactly the concatenation of its fragments",
+          bound="128 image shapes (native enumeration of the compiled code; not a deductive result)",
+          fns=[(_FR, "len", r"impl\s+Fragments\b")]),
         K("C18.fragments_new", "ext", _single,
           "Fragments::new + From<Vec<Fragments>> (single frame): every fragment even and of equal size, fragments "
           "concatenate to the data followed by < 1 fragment of zero padding, offset table [0]",
@@ -196,10 +226,13 @@ PROPS["C18"] = dict(
         "precondition: dst and offset_table are empty on entry (both call sites in pixeldata/src/transcode.rs pass new vectors; not verified)",
         "precondition: frames * (max frame length + 9) <= 2^32-1 (the 32-bit basic offset table cannot express more)",
         "&dyn PixelDataObject rewritten to &impl PixelDataObject in the verified text",
+        "from_fragments / fragments_new_any: SmallVec as Vec; into_iter().enumerate() as an index loop; panic! as unreachable under the documented precondition "
+        "(one fragment per frame in multi-frame data); u32::max / u32::div_ceil / chunks_exact by their std meaning; data and offsets fit 32 bits",
         "frame_pixel_data: preconditions — the encapsulated data fits 32-bit offsets and the basic offset table is strictly increasing around the "
         "requested frame and within the data; Cow<[T]> modelled by its content; the native (None) arm is cut and replaced by an abstract callee",
     ],
-    uncovered=["Fragments::new for data longer than the bound (the f32 ceil for |data| > 2^24 is outside any bound CBMC reaches)",
+    uncovered=["the iterator chain chunks_exact().map().collect() inside Fragments::new beyond the Kani bound (represented by its std meaning in the Verus unit)",
+               "Fragments::len beyond the Kani bound (iterator fold; contract in the Verus unit C18.from_fragments)",
                "frame_pixel_data for native pixel data (cut: C21)", "ENCAPSULATED_PIXEL_DATA_VALUE_TOTAL_LENGTH in transcode.rs (inline in a whole-object function)",
                "pixeldata/src/encapsulation.rs helpers"],
 )
@@ -236,6 +269,8 @@ PROPS["C15"] = dict(
 )
 
 # ----------------------------------------------------------------------- C07
+_WR = ("cp /repo/Cargo.lock /verif/witness/Cargo.lock && CARGO_TARGET_DIR=/verif/build/witness cargo run --offline -q --release "
+       "--manifest-path /verif/witness/Cargo.toml --bin %s 2>&1 | grep -E '^(WITNESS|EXHAUSTIVE|error)' | tail -12")
 _W = ("cp /repo/Cargo.lock /verif/witness/Cargo.lock && CARGO_TARGET_DIR=/verif/build/witness cargo run --offline -q "
       "--manifest-path /verif/witness/Cargo.toml --bin %s 2>&1 | grep -v '^thread\\|^note\\|panicked\\|^ ' | tail -16")
 PROPS["C07"] = dict(
@@ -252,6 +287,23 @@ PROPS["C07"] = dict(
           "(Accept: same, NextEven: +1, Fail: None; even/undefined untouched), Length::{is_defined,is_undefined}, Length + i32 "
           "never overflows",
           expected_verified=11, witness=dict(cmd=_W % "c07_sanitize")),
+        N("C07.dataset", _WR2 % "c07_dataset",
+          "data-set level, on the compiled DataSetReader (Explicit VR LE): an element of every VR with an odd declared length (1-13) at top "
+          "level and inside a defined-length item of a defined-length sequence, each followed by a sentinel element: Accept consumes exactly "
+          "the declared bytes, NextEven one more, Fail reports an error as the first token; the sentinel, ItemEnd and SequenceEnd tokens "
+          "come at the right places and the source is consumed exactly to its end",
+          bound="672 streams: 3 strategies x 32 VRs x 7 odd lengths (native enumeration of the compiled code; not a deductive result)",
+          fns=[("parser/src/dataset/read.rs", "next", r"impl<S>\s+Iterator\s+for\s+DataSetReader")]),
+        N("C07.value_readers_native", _W % "c07_positions",
+          "on the compiled StatefulDecoder: read_value / read_value_preserved / read_value_bytes for every VR, declared lengths 0-17 and four "
+          "fill patterns, read_to_vec / skip_bytes on short sources: reported position == bytes consumed from the source == declared length",
+          bound="about 8000 (reader, VR, length, fill) cases (native enumeration of the compiled code; not a deductive result)"),
+        V("C07.seq_delimiters", "c07_seq_delimiters.vrs",
+          "DataSetReader / LazyDataSetReader::{push_sequence_token, update_seq_delimiters}: a sequence / item of defined length is closed "
+          "(SequenceEnd / ItemEnd, stack popped, in_sequence updated) exactly when the reader position equals position-at-value-start + "
+          "declared length; a position beyond that end is an error (no silent resynchronisation); otherwise, and for undefined lengths, "
+          "nothing is closed and the stack is unchanged; Length::get",
+          expected_verified=9),
     ],
     assumptions=[
         "Read::read_exact / BasicDecode::decode_*_into / decode_tag consume exactly the bytes they are documented to read (ghost counter); "
@@ -259,7 +311,8 @@ PROPS["C07"] = dict(
         "io::copy(take(n)) consumes at most n bytes and returns the count (std assumed)",
         "text-parsing iterator chains (split/map/collect) and validate_* are replaced by opaque callees: parsed content is not part of C07",
         "closures mutating self.position (`.map(|..| {self.position += bytes_read})`, `.inspect(|_| self.position += 8)`) are replaced by shims with that meaning",
-        "precondition room(position, len): position + len fits u64",
+        "precondition room(position, len): position + len fits u64; recorded base offsets are below 2^64 - 2^32 (C07.seq_delimiters)",
+        "C07.seq_delimiters: the readers are represented by the four fields the two functions touch; DataToken / LazyDataToken by the two variants produced; u64::cmp by vstd's specification",
         "determine_vr_based_on_pixel_representation / character-set update do not touch the source (not verified)",
         "64-bit usize",
     ],
@@ -279,7 +332,16 @@ PROPS["C25"] = dict(
           "read_pdu framing head: any strict prefix of header + declared content reads as Ok(None); strict mode rejects "
           "pdu_length > max_pdu_length; an invalid max_pdu_length is rejected; bytes::Buf accessors are never called beyond "
           "the bytes available (no panic)",
-          expected_verified=6),
+          expected_verified=6, witness=dict(cmd=_WR2 % "c25_pdus")),
+        N("C25.pdus", _WR2 % "c25_pdus",
+          "on the compiled write_pdu / read_pdu (Kani aborts on both): well-formed PDUs of every type (A-ASSOCIATE-RQ / -AC with 0-2 "
+          "presentation contexts and every kind of user-information sub-item, alone and all together; every A-ASSOCIATE-RJ and A-ABORT "
+          "value; P-DATA-TF with 1-2 values of 0-3 bytes; A-RELEASE-RQ / -RP; unknown types): an independent reader of the PS3.8 length "
+          "structure finds every PDU, item, sub-item and PDV length equal to the content it describes; the PDU reads back equal consuming "
+          "exactly its bytes (also when more bytes follow); every strict prefix reads as incomplete; item content of 65535 bytes is "
+          "written and read back while 65536 bytes make writing fail; strict mode rejects a PDU one byte above the maximum",
+          bound="189 PDUs and every one of their strict prefixes (native enumeration of the compiled code; not a deductive result)",
+          fns=[("ul/src/pdu/writer.rs", "write_pdu"), ("ul/src/pdu/reader.rs", "read_pdu")]),
     ],
     assumptions=[
         "the chunk builder closure is an abstract callee producing arbitrary content",
@@ -378,11 +440,21 @@ PROPS["C04"] = dict(
           "encode_text_element and encode_primitive_element (binary arm): header length is even and equals the number of "
           "value bytes that follow, pad byte NUL (UI / binary) or space (DA/DT/TM, text); for ALL of them bytes_written "
           "advances by exactly the bytes appended to the sink",
-          expected_verified=16),
+          expected_verified=16, witness=dict(cmd=_WR % "c04_elements")),
         V("C04.collection_delimited", "c04_collection_delimited.vrs",
           "encode_collection_delimited (multi-valued date / time / date-time / string values): the count returned equals the "
           "bytes appended to the sink (elements + one backslash between consecutive values), for any number of values",
-          expected_verified=2),
+          expected_verified=2, witness=dict(cmd=_WR % "c04_elements")),
+        N("C04.elements", _WR % "c04_elements",
+          "element level, on the compiled code: StatefulEncoder::encode_primitive_element with the three real encoders over every "
+          "VR-appropriate value shape of small size (single / multi-valued text incl. ISO_IR 100 non-ASCII, bytes, numbers of every width, "
+          "tags, partial dates / times / date-times, numbers written under DS / IS, empty values), judged by an independent reader of the "
+          "element layout: declared length even and equal to the value bytes that follow, value bytes as expected plus at most one padding "
+          "byte (NUL for UI / binary, space for text / DA / DT / TM), bytes_written() == bytes handed to the sink — covers the arms the "
+          "Verus unit does not (encode_texts_element, encode_element_as_text, the text codec)",
+          bound="2148 elements: 3 encoders x (17 text VRs x 31 shapes, 7 VRs x 10 non-ASCII shapes, bytes 0-5, 8 number types x 0-3 items, "
+                "tags 0-2, 12 date / 20 time / 7 date-time values, DS / IS as text); native enumeration of the compiled code, not a deductive result",
+          fns=[(_SE, "encode_primitive_element", None), (_SE, "encode_texts_element", None), (_SE, "encode_element_as_text", None)]),
         K("C04.byte_len", "ext", _C04K,
           "BasicEncode::encode_primitive (three real encoders): count returned == bytes written == items x item size; "
           "PrimitiveValue::calculate_byte_len agrees (up to even rounding) — discharges the assumed link of the Verus unit for small values",
@@ -429,10 +501,21 @@ PROPS["C01"] = dict(
         K("C01.multi_value_decoders", "ext", ["c01::c01_us_into_be_n3", "c01::c01_ul_into_le_n2"],
           "decode_us_into / decode_ul_into fill every slot from consecutive values in order",
           complete=False, bound="3 resp. 2 values (concrete lengths), bytes symbolic"),
+        N("C01.elements", _WR % "c01_elements",
+          "element level, on the compiled code (Kani aborts on StatefulDecoder::read_value): an element written by the real "
+          "StatefulEncoder::encode_primitive_element and read back by the real StatefulDecoder (decode_header + read_value / "
+          "read_value_preserved) in Explicit VR LE, Explicit VR BE and (standard attributes of the matching VR) Implicit VR LE gives the same "
+          "tag, VR and an equal value — numbers of every width and sign / bit pattern (0-3 items, NaN payloads), bytes, tags with group != "
+          "element, partial dates / times / date-times (1-2 items), single and multi-valued ASCII text, numbers written under DS / IS — up "
+          "to the documented normalisations, and the reader's position ends exactly at the end of the element",
+          bound="987 elements x 2 reading modes: 3 transfer syntaxes x the value shapes listed (native enumeration of the compiled code; "
+                "not a deductive result)",
+          fns=[("parser/src/stateful/decode.rs", "read_value_tag"), ("parser/src/stateful/decode.rs", "read_value_da"),
+               ("parser/src/stateful/encode.rs", "encode_primitive_element")]),
     ],
     assumptions=["only the value-codec and header layer of the property is decided; element-level composition relies on the contracts of C04 (writer) and C07 (reader), which are not machine-composed here"],
     uncovered=["whole data sets: token streams, nested sequences, encapsulated pixel data, deflate (DataSetWriter/DataSetReader, InMemDicomObject)",
-               "text values (character-set codecs, C10)", "element-level write-then-read of values as one machine-checked statement"],
+               "text values in other character sets (C10)", "element-level write-then-read as a deductive statement (only the native unit C01.elements covers it)"],
 )
 
 # ----------------------------------------------------------------------- C12
@@ -450,16 +533,25 @@ PROPS["C12"] = dict(
           "parse_date_partial / parse_time_partial on ANY bytes: no panic (slice bounds, accumulator widths), rest is a suffix; the "
           "text YYYY / YYYYMM / YYYYMMDD / HH / HHMM / HHMMSS / HHMMSS.F{1..6} of every valid value parses back to exactly that value "
           "with that precision, consuming the whole text",
-          expected_verified=11),
+          expected_verified=11, witness=dict(cmd=_WR % "c12_exhaustive")),
         V("C12.date_range", "c12_date_range.vrs",
           "<DicomDate as AsRange>::earliest / latest for every valid partial date: first / last day of the year or month (Gregorian month "
           "lengths and leap rule written in the contract), or the day itself; Err exactly when the day does not exist in that month",
-          expected_verified=5),
+          expected_verified=5, witness=dict(cmd=_WR % "c12_exhaustive")),
         V("C12.time_range", "c12_time_range.vrs",
           "<DicomTime as AsRange>::earliest / latest for every valid partial time incl. leap seconds (second 60) and fractions of 1-6 "
           "digits: both exist; in microseconds since midnight earliest = missing components 0, latest = missing minute/second 59 and "
           "missing fraction digits 9 (so earliest <= latest and every consistent precise time lies between them)",
-          expected_verified=13, witness=dict(cmd=_W % "c12_time_range")),
+          expected_verified=15, witness=dict(cmd=_WR % "c12_exhaustive")),
+        N("C12.native", _WR % "c12_exhaustive",
+          "on the compiled code (incl. the real to_encoded / format!, read_number and chrono): every valid partial date (years 1-9999, all "
+          "months, all days) and every valid time without fraction (second 0-60), plus fractions of 1-6 digits at boundary values: the "
+          "text written by to_encoded has the prescribed length and parses back to an equal value consuming all bytes; earliest / latest "
+          "are the first / last instant consistent with the components (independent calendar and microsecond arithmetic); out-of-range "
+          "components are rejected by the constructors",
+          bound="4 199 117 values: exhaustive for dates and fraction-less times, boundary samples for fractions (native enumeration of the "
+                "compiled code; not a deductive result)",
+          fns=[("core/src/value/partial.rs", "to_encoded", r"impl\s+DicomDate\s*\{"), ("core/src/value/partial.rs", "to_encoded", r"impl\s+DicomTime\s*\{")]),
         K("C12.parse_kani_crosscheck", "ext", ["c12::c12_parse_date_y", "c12::c12_parse_time_h"],
           "cross-check on the compiled code, including the real read_number: YYYY and HH texts (all digit strings)",
           timeout=600, tier="thorough"),
@@ -472,9 +564,9 @@ PROPS["C12"] = dict(
         "AsRange trait-impl methods of DicomDate / DicomTime verified as inherent methods",
         "chrono: NaiveTime::from_hms_micro_opt is Some iff hour<24, min<60, sec<60 and micro<10^6, or sec==59 and micro<2*10^6 (leap second representation; ASSUMED)",
     ],
-    uncovered=["to_encoded (format!): text produced from a value — Kani exceeds its budget in the fmt machinery",
+    uncovered=["to_encoded (format!) is outside both verifiers (Kani exceeds its budget in the fmt machinery): covered only by the native unit C12.native",
                "date-time values, time-zone offsets (chrono FixedOffset)", "AsRange for DicomDateTime (chrono DateTime/FixedOffset arithmetic)",
-               "range texts A-B, A-, -B (parse_date_range / parse_time_range)", "encoded text length == reported length"],
+               "range texts A-B, A-, -B (parse_date_range / parse_time_range)"],
 )
 
 # ----------------------------------------------------------------------- C14
@@ -563,12 +655,21 @@ PROPS["C09"] = dict(
           bound="972 tables: every presence combination of the optional attributes with even- and odd-length values (native enumeration; survives "
                 "restructurings of the computation that the extraction cannot follow; not a deductive result)",
           fns=[("object/src/meta.rs", "calculate_information_group_length"), ("object/src/meta.rs", "write", r"impl\s+FileMetaTable")]),
+        N("C09.after_operations", _WR % "c09_after_operations",
+          "'this still holds after any supported attribute operation': every attribute action kind (Remove, Empty, SetVr, Set, SetStr, "
+          "SetIfMissing, SetStrIfMissing, Replace, ReplaceStr, Push*, Truncate) applied through ApplyOp::apply to each file meta attribute "
+          "(and to unsupported tags), on tables with and without the optional attributes, alone and followed by a second operation: "
+          "afterwards — accepted or refused — the recorded group length == bytes that follow the group length element, and the written "
+          "group reads back equal",
+          bound="1760 operation sequences: 4 base tables x 11 tags x 20 actions x {one, two} operations (native enumeration of the compiled code; "
+                "not a deductive result)",
+          fns=[("object/src/meta.rs", "apply", r"impl\s+FileMetaTable\b"), ("object/src/meta.rs", "update_information_group_length")]),
     ],
     assumptions=["string byte lengths are abstract (Verus has no str byte reasoning); strings <= 65535 bytes, private information < 2 GiB (preconditions)",
                  "header sizes 8 (UI, SH, AE) and 12 (OB) are those proved for the real Explicit VR LE encoder in C03",
                  "closure postconditions are ghost annotations inserted by a declared rewrite that carries the constant found in the code into the annotation"],
     uncovered=["that update_information_group_length / the builder store this value, and that FileMetaTable::write emits exactly these bytes "
-               "(writer pipeline: DataSetWriter, not within reach)", "reading the group back (equality), attribute operations on the table",
+               "(writer pipeline: DataSetWriter, not within reach)", "deductive treatment of reading the group back and of attribute operations (only the native units cover them)",
                "preamble detection when opening files"],
 )
 
@@ -596,12 +697,21 @@ PROPS["C34"] = dict(
           expected_verified=49),
         V("C34.pdata_writer", "c26_pdata_writer.vrs",
           "PDataWriter::write / dispatch_pdu / finish_impl: a transport failure makes the call return Err", expected_verified=11),
+        N("C34.io_failures", _WR2 % "c34_io_failures",
+          "whole data sets and files, on the compiled code: a small object (text, numbers, odd-length bytes, nested sequence, native or "
+          "encapsulated pixel data) written as a data set in Implicit VR LE / Explicit VR LE / Explicit VR BE and as a complete file to a "
+          "sink that fails, or accepts zero bytes, at byte offset k (from then on, or once only) — for EVERY k up to the length of the output the operation "
+          "returns an error (never Ok, never a panic), and a sink accepting one byte per call receives the identical complete output; the "
+          "same streams read back from a source that reports an I/O error at offset k, for every k: an error, never a partial object",
+          bound="14 354 (operation, failure mode, offset) cases over 2 objects x (3 data set syntaxes + file) (native enumeration of the compiled "
+                "code; not a deductive result)",
+          fns=[("object/src/mem.rs", "write_dataset_with_ts"), ("object/src/mem.rs", "read_dataset_with_ts")]),
     ],
     assumptions=["a failing writer is modelled as one that accepts zero bytes from some offset on (std write_all turns that into an error); "
                  "io::Error values produced by the writer itself are outside the Kani harnesses (bit-packed representation is too costly)",
                  "Drop for PDataWriter discards the result of finish_impl by design; the public finish() propagates it"],
-    uncovered=["whole-file / data-set writers (FileDicomObject::write_*, DataSetWriter)", "deflate adapter", "data set readers, file readers",
-               "PDU send/receive in associations"],
+    uncovered=["whole-file / data-set writers and readers deductively (FileDicomObject::write_*, DataSetWriter, DataSetReader: only the native "
+               "unit C34.io_failures covers them, for two small objects)", "deflate adapter", "PDU send/receive in associations"],
 )
 
 # ----------------------------------------------------------------------- C05
@@ -623,12 +733,30 @@ PROPS["C05"] = dict(
           "read_pdu framing head on ANY buffer: bytes::Buf accessors never called beyond the bytes available (shared with C25)",
           expected_verified=6),
         V("C05.value_readers", "c07_stateful_decoder.vrs",
-          "StatefulDecoder value readers: no arithmetic overflow / out-of-range cast for any declared length (shared with C07)",
-          expected_verified=49),
+          "StatefulDecoder value readers: no arithmetic overflow / out-of-range cast / out-of-range slice for any declared length (shared with C07)",
+          expected_verified=49, witness=dict(cmd=_W % "c07_positions")),
+        N("C05.hostile", _WR2 % "c05_hostile -- quick",
+          "on the compiled code, hostile inputs through the reading entry points the verifiers cannot process: every string of up to 5 "
+          "characters over a 9-character alphabet (digits, separators, a multi-byte character) and single-character mutations of valid "
+          "texts through parse_date_partial / parse_time_partial / parse_datetime_partial / Tag::from_str; every truncation and "
+          "single-byte mutation of PDUs of every type through read_pdu (strict and not); every truncation and single-byte mutation (to 00 / 01) "
+          "of a small object in three transfer syntaxes and as a complete file through InMemDicomObject::read_dataset_with_ts (drives "
+          "the DataSetReader), the LazyDataSetReader and dicom_object::from_reader: a value or an error, never a panic",
+          bound="145 854 inputs (native enumeration of the compiled code; not a deductive result; says nothing about inputs outside the family)",
+          fns=[("object/src/mem.rs", "read_dataset_with_ts")]),
+        N("C05.hostile_full", _WR2 % "c05_hostile",
+          "on the compiled code, hostile inputs through the reading entry points the verifiers cannot process: every string of up to 6 "
+          "characters over a 9-character alphabet (digits, separators, a multi-byte character) and single-character mutations of valid "
+          "texts through parse_date_partial / parse_time_partial / parse_datetime_partial / Tag::from_str; every truncation and "
+          "single-byte mutation of PDUs of every type through read_pdu (strict and not); every truncation and single-byte mutation (to 00 / 01 / FF) "
+          "of a small object in three transfer syntaxes and as a complete file through InMemDicomObject::read_dataset_with_ts (drives "
+          "the DataSetReader), the LazyDataSetReader and dicom_object::from_reader: a value or an error, never a panic",
+          bound="1 211 146 inputs (native enumeration of the compiled code; not a deductive result)", tier="thorough", timeout=3600),
     ],
     assumptions=["panic-freedom (index, slice, overflow, unwrap, unreachable!) is an automatic obligation of both engines in every unit of every property",
                  "inputs shorter than a tag (0-3 bytes) are not covered by the header unit (CBMC budget)"],
-    uncovered=["file opening and byte-source reading, file meta group reading", "eager / lazy / collector data set readers (token machines)",
+    uncovered=["file opening and byte-source reading, file meta group reading, eager / lazy data set readers: deductively uncovered (only the native "
+               "unit C05.hostile exercises them)", "collector reader",
                "DICOM JSON deserialisation", "PDU body decoding (per-type, after the framing head)", "pixel data decoders (JPEG, RLE on malformed fragments, deflate)",
                "dump", "attribute selector, date-time and range text parsers", "hang-freedom (termination) in general"],
 )
